@@ -28,7 +28,7 @@ ASSUMPTIONS = [
     "field types are a primitive, Optional of a primitive or an enum - all that DEFINE's conversion can produce",
     "payload objects have unique keys (serde_json::Map); a command line with duplicate keys keeps the last one and is outside the model",
     "time strings: Model/Time.v (C16) models chrono by hand; the oracle's ground truth covers strict RFC 3339, YYYY-MM-DD and decimal integers, which is what the generator places in time slots",
-    "the command-line model covers payload texts that are valid JSON objects; the tokenizer/PEG front is modelled only through brace balance and '+' in exponents",
+    "the command-line model covers payload texts that are valid JSON objects; the tokenizer/PEG front is modelled only through brace balance and '+' in exponents; texts that are not valid JSON (unclosed / stray braces) denote no command and are only checked to be answered with a parse error and to store nothing",
     "engine level: every case is read back from a memtable that never fills (judged in full); a second pass with a 4-event memtable checks only that the answers are the same and that no row carries the context of a rejected STORE - reads across flushes lose / duplicate rows (C03/C07), which C06 does not judge; restart and compaction are other properties' subject",
 ]
 TRUSTED = [
@@ -336,6 +336,9 @@ def has_brace(v):
     return False
 
 
+NOT_JSON = "<not JSON>"      # a str: conforms() rejects anything that is not a dict
+
+
 def parse_out(out):
     d = {}
     for tok in (out or "").split():
@@ -390,7 +393,8 @@ def judge(c, impl):
             plus = False
         else:
             ctx = unhx(line[3][1:]).decode("utf-8")
-            payload = unjt(line[5])
+            # "!" = the payload text is not valid JSON, hence not a JSON object, hence never conforming
+            payload = NOT_JSON if line[5] == "!" else unjt(line[5])
             plus = line[6] == "1"
     # --- invisibility / visibility, whatever the verdict
     if S == "OK":
@@ -723,6 +727,26 @@ def cases(rng, tier):
                 muts = muts + ["brace"]
             add("text", f"store_text {st} {et} {mode}{hx(ctx)} {hx(text)} {jt(payload)} {1 if plus else 0}",
                 f"schema={fields!r} STORE <type> FOR {ctx!r} PAYLOAD {text}", tk, muts)
+
+    # --- payload texts that are not valid JSON: unclosed nested braces, stray braces, with and without strings
+    #     (the `{ a { b }` family; 04c7300 changed how the grammar fails on them, the answer must stay a parse error
+    #     and nothing may be stored)
+    BAD_TEXTS = ['{ a { b }', '{ a { b', '{ { }', '{ {', '{"a":1,{"b":2}', '{"a":{"b":1}', '{"a":{"b":{"c":1}}', '{"a":1}}',
+                 '{"a":1} }', '{"a":1}{', '{"a":"x"} {"a":"y"}', '{"a":"{"', '{"a":"}', '{"a":"\\"}"', '{"a":{ "s":"}" }',
+                 '{ a { b } }', '{{}}', '{"a":1,"b":{}', '{"a":[{]}', '{"a":1,}', '{,}', '{"a" 1}', '{"a":"x" "b":1}', '{"a":tru}']
+    for bi in range(len(BAD_TEXTS) * scale if tier == "quick" else 6 * len(BAD_TEXTS)):
+        fields = gen_schema(rng)
+        text = BAD_TEXTS[bi % len(BAD_TEXTS)]
+        if rng.chance(1, 3):
+            text = text.replace("{", "{" * rng.range(1, 3), 1) if rng.chance(1, 2) else text + rng.choice([" ", "{", '"'])
+            try:
+                json.loads(text)
+                continue
+            except ValueError:
+                pass
+        ctx = f"b{bi}"
+        add("badtext", f"store_text {sch_tok(fields)} = {rng.choice('qu')}{hx(ctx)} {hx(text)} ! 0",
+            f"schema={fields!r} STORE <type> FOR {ctx!r} PAYLOAD {text}", types_key(fields), ["notjson"])
 
     # --- DEFINE twice, then STORE: the first schema stays in force
     for si in range(60 * scale):
